@@ -49,8 +49,9 @@ def cat(*xs):
     return N("cat", xs=xs)
 
 
-def rep(x, lo, hi, ref=""):
-    return N("rep", xs=[x], lo=lo, hi=hi, ref=ref)
+def rep(x, lo, hi, ref="", kind=""):
+    """ref: the symbol whose number is the (upper, with kind="upto"; otherwise exact) count of a computed repetition"""
+    return N("rep", xs=[x], lo=lo, hi=hi, ref=ref, kind=kind)
 
 
 # ------------------------------------------------------------------ rendering
@@ -120,6 +121,8 @@ def render_node(n, top=False):
         if n["xs"][0]["k"] == "rep":
             body = "(" + body + ")"
         if n["ref"]:
+            if n["kind"] == "upto":
+                return body + "{%d,int(%s)}" % (n["lo"], n["ref"])
             return body + "{int(%s)}" % n["ref"]
         return body + (_quant(n["lo"], n["hi"]) or "{1}")
     if k == "nt":
@@ -246,7 +249,8 @@ def rand_leaf(rnd, flavour, classes=None, assertions=False):
             return lit_bytes(rnd.choice(BYTE_LITS))
         if r < 0.8:
             return lit_text(rnd.choice(["a", "xy", "0", "\u00e9"]))
-        return regex([(list(b"AB"), 1, 2)], kind="bytes") if False else lit_bytes(rnd.choice(BYTE_LITS))
+        # a bytes regex over an ASCII class (binary regexes over other bytes meet the text/bytes views of finding F15's family)
+        return regex([(list(b"AB"), 1, rnd.choice([1, 2]))], kind="bytes")
     if r < 0.75:
         return lit_text(rnd.choice(TEXT_LITS))
     lo, hi = rnd.choice([(1, 1), (1, 2), (1, 3), (2, 2), (0, 2), (1, INF), (0, INF)])
